@@ -27,6 +27,7 @@ import YashModel.Executor.NestedFifo
 import YashModel.Executor.NestedLive
 import YashModel.Executor.NestedSim
 import YashModel.Executor.NestedTerm
+import YashModel.Executor.NestedFrozen
 import YashModel.Executor.RcProj
 import YashModel.Executor.RcRefs
 namespace YashModel.Executor
@@ -1016,5 +1017,89 @@ theorem nested_run_terminates (scripts : List NScript) (n : Nat) :
 
 open Nested in
 example : nStallBound (nInit [[.nest, .yield, .nest], [.wake 0, .yield], [.nest]]) = 39 := by decide
+
+/-! ### wave 3, second half -/
+
+/-- the infinite run of a task system: the state after `i` calls of `Executor::step` -/
+def run (sticky : Bool) (scripts : List Script) (roots : Nat) (i : Nat) : State :=
+  stepN i (init sticky scripts roots)
+
+/-- ★ Bounded bypass = FIFO fairness, in the form "for every history": in the infinite run of ANY task system, if
+    task `t` is woken-and-not-yet-polled at step boundary `i` (it is in the wake queue: spawned, woken by itself
+    during its poll, by another task, by a relay — whatever happened in steps `1 … i`), then there is a
+    `j < |queue at i|` such that the steps `i+1 … i+j` pop other tasks (each of the `j` tasks that were ahead of it,
+    in order, and none of them `t`) and step `i+j+1` pops `t` and runs `Task::poll` on it (trace `poll t … ` or
+    `noop t` for an emptied slot): at most `|queue at i| - 1` other polls overtake it, however often the others
+    re-wake themselves.  `j` is the position of `t` in the queue at `i`. -/
+theorem bounded_bypass (sticky : Bool) (scripts : List Script) (roots : Nat) (i t : Nat)
+    (hw : t ∈ (run sticky scripts roots i).queue) :
+    ∃ j, j < (run sticky scripts roots i).queue.length ∧ (run sticky scripts roots i).queue[j]? = some t ∧
+      (∀ j', j' < j → ∃ u q, u ≠ t ∧ (run sticky scripts roots (i + j')).queue = u :: q ∧
+        (run sticky scripts roots i).queue[j']? = some u) ∧
+      (∃ q, (run sticky scripts roots (i + j)).queue = t :: q ∧
+        run sticky scripts roots (i + j + 1) = (poll { run sticky scripts roots (i + j) with queue := q } t).1 ∧
+        ((run sticky scripts roots (i + j + 1)).log = (run sticky scripts roots (i + j)).log ++ [.noop t] ∨
+         ∃ b, (run sticky scripts roots (i + j + 1)).log = (run sticky scripts roots (i + j)).log ++ [.poll t, .ret t b])) := by
+  have hreach : Reachable (run sticky scripts roots i) := ⟨sticky, scripts, roots, i, rfl⟩
+  have hnd := queue_nodup _ hreach
+  obtain ⟨j, hj, hjt⟩ := List.getElem_of_mem hw
+  have hjq : (run sticky scripts roots i).queue[j]? = some t := by rw [List.getElem?_eq_getElem hj, hjt]
+  have hadd : ∀ k, run sticky scripts roots (i + k) = stepN k (run sticky scripts roots i) := fun k => stepN_add i k _
+  refine ⟨j, hj, hjq, ?_, ?_⟩
+  · intro j' hj'
+    have hj'l : j' < (run sticky scripts roots i).queue.length := Nat.lt_trans hj' hj
+    obtain ⟨q, h1, _⟩ := fifo_bound (run sticky scripts roots i) j' _ (List.getElem?_eq_getElem hj'l)
+    refine ⟨_, q, ?_, by rw [hadd]; exact h1, List.getElem?_eq_getElem hj'l⟩
+    intro e
+    have hne := List.pairwise_iff_getElem.mp hnd j' j hj'l hj hj'
+    exact hne (e.trans hjt.symm)
+  · obtain ⟨q, h1, h2⟩ := fifo_bound (run sticky scripts roots i) j t hjq
+    have hnext : run sticky scripts roots (i + j + 1) =
+        (poll { run sticky scripts roots (i + j) with queue := q } t).1 := by
+      show stepN (i + j + 1) _ = _
+      rw [stepN_add (i + j) 1, stepN_one]
+      show (match step (run sticky scripts roots (i + j)) with | none => _ | some r => r.1) = _
+      rw [hadd, h2]
+    refine ⟨q, by rw [hadd]; exact h1, hnext, ?_⟩
+    rw [hnext]
+    rcases poll_trace { run sticky scripts roots (i + j) with queue := q } t with ⟨_, hl, _⟩ | ⟨acts, _, hl, _⟩
+    · exact Or.inl hl
+    · exact Or.inr ⟨_, hl⟩
+
+example : (2 : Nat) ∈ (run true [[.yield, .yield, .yield], [.yield, .yield, .yield], [.yield]] 3 5).queue := by decide
+
+open Nested in
+/-- ★ What the executor is left in when the recursion guard panics ("unwinding after the guard panic: the case ends
+    there" until now).  The model's outcome `panic` freezes the state at the guard (`nStep` of a panicked state is
+    `none`: any number of further steps changes nothing).  In EVERY state at a top-level boundary — the frozen one
+    included — the wake queue holds no task twice, no task is in progress twice, every task in progress still has
+    its future in its slot, and no task has been lost: every unfinished task is in the wake queue or is one of the
+    polls that were in progress when the guard fired (those are exactly the tasks the unwinding takes out of the
+    queue without finishing them: the harness observes them as `act=` after `catch_unwind`). -/
+theorem guard_panic_frozen (scripts : List NScript) (n : Nat) :
+    let s := nStepN n (nInit scripts)
+    s.queue.Nodup ∧ s.stack.Nodup ∧ (∀ x, x ∈ s.stack → (s.fut x).isSome = true) ∧
+    (∀ x, x < s.ntasks → (s.fut x).isSome = true → x ∈ s.queue ∨ x ∈ s.stack) ∧
+    (s.panicked = true → ∀ m, nStepN m s = s) ∧
+    (s.panicked = false → s.stack = []) ∧ nFrozenB s = true := by
+  intro s
+  have h : NTop s := ntop_stepN n (ntop_init scripts)
+  have hl : LiveB s := liveF_stepN n (ntop_init scripts) (fun x hx _ => Or.inl (List.mem_range.mpr hx))
+  refine ⟨h.inv.qn, h.inv.sn, h.inv.occ, hl, fun hp m => nStepN_panicked m s hp, h.idle, ?_⟩
+  unfold nFrozenB
+  rw [n_nodupB_of _ h.inv.qn, n_nodupB_of _ h.inv.sn]
+  simp only [Bool.and_self, Bool.true_and, List.all_eq_true, List.mem_range, Bool.or_eq_true]
+  intro x hx
+  cases hf : s.fut x with
+  | none => left; left; rfl
+  | some a =>
+    rcases hl x hx (by rw [hf]; rfl) with h1 | h1
+    · left; right; exact List.contains_iff_mem.mpr h1
+    · right; exact List.contains_iff_mem.mpr h1
+
+open Nested in
+/-- three polls in progress when the guard fires for task 0; task 1 and 2 are taken out of the queue unfinished -/
+example : let s := nStepN 5 (nInit [[.nest, .nest], [.nest], [.wake 0, .nest]])
+    s.panicked = true ∧ s.stack = [2, 1, 0] ∧ s.queue = [] := by decide
 
 end YashModel.Executor
